@@ -1,4 +1,5 @@
 """C04 -- Finnis-Sinclair routing: setfl eam/fs, TABEAM EEAM, Excel; API (EAMPotential dictionaries) and potable (A->B)."""
+import random
 import io, itertools
 import core, layout, eam_common as ec, p_c01, p_c03, p_c05
 from layout import q
@@ -61,7 +62,16 @@ def gen_potable(rng):
     rng.shuffle(dens)
     const = {'%s->%s' % k: 10.0 + 7 * i for i, k in enumerate(sorted(dens))}
     return {'potable_fs': True, 'els': els, 'embed': embed, 'dens': [list(k) for k in dens], 'const': const,
-            'target': rng.choice(['setfl_fs', 'DL_POLY_EAM_fs', 'excel_eam_fs']), 'nr': rng.choice([3, 4, 6]), 'nrho': rng.choice([2, 3, 5])}
+            'target': rng.choice(['setfl_fs', 'DL_POLY_EAM_fs', 'excel_eam_fs']), 'nr': rng.choice([3, 4, 6]), 'nrho': rng.choice([2, 3, 5]), 'include_all': rng.random() < 0.3}
+
+def potable_corpus():
+    out = []
+    for k, t in enumerate(['setfl_fs', 'DL_POLY_EAM_fs', 'excel_eam_fs']):
+        c = gen_potable(random.Random(400 + k)); c['target'] = t; c['include_all'] = True
+        if (c['els'][0], c['els'][0]) not in [tuple(x) for x in c['dens']]:      # make sure a self entry A->A is declared
+            c['dens'].append([c['els'][0], c['els'][0]]); c['const']['%s->%s' % (c['els'][0], c['els'][0])] = 3.5
+        out.append(c)
+    return out
 
 def potable_text(c):
     t = '[Tabulation]\ntarget : %s\nnr : %d\ncutoff : 5.0\nnrho : %d\ncutoff_rho : 10.0\n\n' % (c['target'], c['nr'], c['nrho'])
@@ -81,7 +91,13 @@ def potable_expected_order(c):
 
 def run_potable(c):
     from atsim.potentials.config import Configuration
-    tab = Configuration().read(io.StringIO(potable_text(c)))
+    if c.get('include_all'):
+        # the same model seen through --include-species with EVERY species listed: nothing is deleted, every A->B (A->A too) keeps its slot
+        from atsim.potentials.config import ConfigParser
+        from atsim.potentials.config._filtered_config_parser import FilteredConfigParser
+        tab = Configuration().read_from_parser(FilteredConfigParser(ConfigParser(io.StringIO(potable_text(c))), include=list(c['els'])))
+    else:
+        tab = Configuration().read(io.StringIO(potable_text(c)))
     if c['target'] == 'excel_eam_fs':
         out = io.BytesIO(); tab.write(out); return tab, ec.workbook_text(out.getvalue())
     out = io.StringIO(); tab.write(out); return tab, out.getvalue()
@@ -110,7 +126,7 @@ def read_slots(c, text, names):
 def correspond(ctx):
     rng = ctx['rng']
     cases = [gen_case(rng, ctx['thorough']) for _ in range(150 if ctx['thorough'] else 40)]
-    pcases = [gen_potable(rng) for _ in range(60 if ctx['thorough'] else 18)]
+    pcases = potable_corpus() + [gen_potable(rng) for _ in range(60 if ctx['thorough'] else 18)]
     dis = []
     runs = []
     for c in cases:
@@ -180,6 +196,7 @@ def oracle(case):
     return fails
 
 def search_cases(rng, n):
+    for c in potable_corpus(): yield c
     for k in range(n // 4):
         yield gen_case(rng)
         yield gen_potable(rng)
